@@ -105,29 +105,28 @@ class Budget(BaseException):
 
 
 def attempts(src, std, limit=None, keep_comments=False):
-    """number of Base.__new__ calls (all: reader and string arguments); None if limit exceeded"""
+    """number of Base.__new__ calls (all: reader and string arguments); None if limit exceeded.
+    Counted with a profile hook on the code object of Base.__new__: wrapping the method instead would put an
+    extra C-level call on every recursion level and exhaust CPython's fixed C recursion limit much earlier."""
     import sys
     import fp
-    utils = fp.utils
-    orig = utils.Base.__dict__["__new__"]
+    code = fp.utils.Base.__new__.__code__
     cnt = [0]
-    # the property is about the number of calls: the interpreter's default recursion limit (about 20 nested
-    # parentheses) is lifted for the measurement
     sys.setrecursionlimit(max(sys.getrecursionlimit(), 12000))
 
-    def counting_new(cls, string, *a, **k):
-        cnt[0] += 1
-        if limit is not None and cnt[0] > limit:
-            raise Budget()
-        return orig(cls, string, *a, **k)
-    utils.Base.__new__ = counting_new
+    def prof(frame, event, arg):
+        if event == "call" and frame.f_code is code:
+            cnt[0] += 1
+            if limit is not None and cnt[0] > limit:
+                raise Budget()
+    sys.setprofile(prof)
     try:
         try:
             o = fp.parse(src, std=std, ignore_comments=not keep_comments)
         except Budget:
             return None, "budget"
     finally:
-        utils.Base.__new__ = orig
+        sys.setprofile(None)
     if o.kind == "escape:Budget":
         return None, "budget"
     return cnt[0], o.kind
@@ -173,7 +172,7 @@ def run(ctx):
     proof = common.leg_p(ctx, TARGETS)
     import engine_corr
     sizes = (4, 8, 16) if ctx.tier == "quick" else (3, 4, 6, 8, 12, 16, 24, 32, 48, 64, 96, 128)
-    xsizes = (3, 6, 12) if ctx.tier == "quick" else (2, 3, 4, 6, 8, 12, 16, 24)     # expression nesting
+    xsizes = (3, 6, 12) if ctx.tier == "quick" else (2, 3, 4, 5, 6, 8, 10, 12)     # expression nesting (deeper nests hit CPython's C recursion limit)
     csizes = (2, 5) if ctx.tier == "quick" else (2, 4, 7, 10)
     jobs = []
     cc = []
